@@ -22,3 +22,14 @@ package flight
 //@ func CommitSRTP
 //@ noinline
 //@ end
+
+// The transcript uses, for every rule, the LAST matching message (highest message sequence: the ClientHello that carries the
+// cookie, not the first one). Inner loop: after k cache entries the candidate is at least as late as every matching entry seen.
+//@ define PMATCH(c, r) (c.Typ == r.Typ && c.IsClient == r.IsClient && c.Epoch == r.Epoch)
+//@ func Cache.Pull
+//@ requires entries: forall(0, len(h.cache), func(k int) bool { return h.cache[k] != nil })
+//@ ensures one-slot-per-rule: len(result) == len(rules)
+//@ loop #1: slots: len(out) == len(rules) && sameSlice(h.cache, old(h.cache))
+//@ loop #2: slots: len(out) == len(rules) && 0 <= i && i < len(rules) && sameSlice(h.cache, old(h.cache))
+//@ loop #2: latest-so-far: forall(0, idx, func(k int) bool { return PMATCH(h.cache[k], r) ==> out[i] != nil && out[i].MessageSequence >= h.cache[k].MessageSequence })
+//@ end
